@@ -126,12 +126,12 @@ def qlist(v):
 
 
 def structure_term(st):
-    div = clist(st["div"], lambda t: f"({t[0]}%nat,{t[1]}%nat,({int(t[2])})%Z)")
     assert all(float(int(t[2])) == t[2] for t in st["div"])
-    pp_ = clist(st["pp"], lambda t: f"({t[0]}%nat,{t[1]}%nat,{qz(t[2])})")
-    ps_ = clist(st["ps"], lambda t: f"({t[0]}%nat,{t[1]}%nat,{qz(t[2])})")
-    return (f"{{| s_nc := {st['nc']}%nat; s_nf := {st['nf']}%nat; s_nm := {st['nm']}%nat; "
-            f"s_div := {div}; s_pp := {pp_}; s_ps := {ps_} |}}")
+    zi = lambda x: f"{int(x)}" if x >= 0 else f"({int(x)})"
+    div = clist(st["div"], lambda t: f"zinc {t[0]} {t[1]} {zi(t[2])}")
+    pp_ = clist(st["pp"], lambda t: f"zw {t[0]}%Z {t[1]}%Z {qz(t[2])}")
+    ps_ = clist(st["ps"], lambda t: f"zw {t[0]}%Z {t[1]}%Z {qz(t[2])}")
+    return (f"(zstructure {st['nc']}%Z {st['nf']}%Z {st['nm']}%Z ({div})%Z {pp_} {ps_})")
 
 
 def evaluation_term(e):
@@ -145,7 +145,7 @@ class C04(Prop):
     props_file = "Props/C04.v"
     preamble = ("From Coq Require Import List ZArith QArith.\nImport ListNotations.\n"
                 "From PP Require Import Model.C04.\nOpen Scope Q_scope.\n")
-    n_cases = (24, 60)
+    n_cases = (16, 30)
     design_ref = "DESIGN.md §5 C04"
     level_text = (
         "METHOD-level Coq theorems over any commutative ring plus per-instance certificates. "
@@ -187,7 +187,7 @@ class C04(Prop):
             "{unit square with 0-2 orthogonal (intersecting) fractures, 2x1 rectangle with 0-3 "
             "fractures meeting in one point, unit cube with 0-3 orthogonal fractures (thorough)}; "
             "Cartesian (quick) / simplex (thorough); compressible and incompressible fluid; random "
-            "dyadic material constants and time step; 3 (quick) / 8 (thorough) random states per "
+            "dyadic material constants and time step; 3 (quick) / 6 (thorough) random states per "
             "configuration incl. an all-zero-interface-flux state; non-trivial = at least one "
             "fracture and a non-zero interface flux; distinct by (case, output)")
     trusted = ["float -> exact rational conversion of the evaluated AD operators; tolerance band "
@@ -213,7 +213,7 @@ class C04(Prop):
 
     def generate(self, rng, n, tier):
         quick = tier == "quick"
-        nstates = 3 if quick else 8
+        nstates = 3 if quick else 6
         for i in range(n):
             physics = "flow" if i % 2 == 0 else "energy"
             r = rng.random()
